@@ -9,7 +9,7 @@ CHECKS = {
  "C01": (MC, "EVM", "TLC batch model checking of observational equivalence (EVMEquiv over EVM/Words/Grid) on (input block, emitted block) pairs recorded from the real optimizer; blocks enumerated by TLC (SeqGen)",
          "TLC evaluates the TLA+ EVM semantics of both blocks on every grid state (boundary values, aliasing, generic words; seeded memory/storage) for every changed block the real pipeline emitted under 6 (quick) / 108 (thorough) option sets; exhaustive over the enumerated blocks and grid, not over all 2^256-sized states",
          "5 C01", "spec/Words.tla is checked against native integers at 8/16 bits (WordsCheck); gas exhaustion not modelled; hash/environment functions generic; z3 4.8.12 stands in for the Max-SMT solver"),
- "C02": (MC, "SFSDenote", "TLC explores every linearization of the specification's memory/storage/hash operations (SFSDenote) and compares with the concrete run of the sub-block (EVM)",
+ "C02": (MC, "SFSDenote", "TLC explores every linearization of the specification's memory/storage/hash operations (SFSDenote) and compares with the concrete run of the sub-block (EVM); MemDeps.tla model-checks the pairwise-conflict ordering criterion and feeds the instances refuting its closest-store-only variant back to the real front-end",
          "for every specification the real front-end produced (3 split modes x rules on/off) TLC enumerates all order ideals of the declared happens-before relation on every grid state and checks the completion invariant against the TLA+ EVM run; exhaustive over schedules within the operation bound",
          "5 C02", "<= 6 (quick) / 8 (thorough) memory operations per specification; grid of states; each operation executed once per schedule"),
  "C03": (MC, "SFSDenote", "TLC checks the word library against native integers (WordsCheck) and the rule catalogue as identities at 8/16/256 bits (Rules), and evaluates the specifications with rules on and off against the concrete run (SFSDenote) on rule instantiations enumerated by TLC (SeqGen)",
@@ -96,7 +96,7 @@ def main():
          "engines": [
              {"name": "EVM", "path": "spec/Words.tla spec/EVM.tla spec/Grid.tla spec/EVMEquiv.tla spec/SeqGen.tla spec/Mutate.tla", "serves_properties": ["C01", "C03", "C05", "C08", "C11"], "kind_free_text": "(with spec/EVMCost.tla spec/CostTrace.tla) TLA+ 256-bit word library and concrete block semantics; TLC batch equivalence checking on a grid of machine states"},
              {"name": "SFSMachine", "path": "spec/SFSMachine.tla spec/SFSTrace.tla spec/SFSSearch.tla spec/SFSCost.tla spec/SoftCost.tla spec/StaticCost.tla spec/SmtLib.tla", "serves_properties": ["C04", "C06", "C07", "C16"], "kind_free_text": "symbolic stack machine over a specification: trace validation and exhaustive bounded search with TLC"},
-             {"name": "SFSDenote", "path": "spec/SFSDenote.tla spec/Rules.tla spec/WordsCheck.tla", "serves_properties": ["C02", "C03"], "kind_free_text": "meaning of a specification under every admissible schedule, explored by TLC"},
+             {"name": "SFSDenote", "path": "spec/SFSDenote.tla spec/Rules.tla spec/WordsCheck.tla spec/MemDeps.tla", "serves_properties": ["C02", "C03"], "kind_free_text": "meaning of a specification under every admissible schedule, explored by TLC"},
              {"name": "AsmDoc", "path": "spec/AsmDoc.tla spec/AsmDocGen.tla spec/AsmDocTrace.tla", "serves_properties": ["C15"], "kind_free_text": "abstract solc document, generator and round-trip trace validator"},
              {"name": "Formula", "path": "spec/Formula.tla spec/SExpr.tla spec/FormulaGen.tla spec/FormulaTrace.tla", "serves_properties": ["C18"], "kind_free_text": "formula ASTs with SMT-LIB evaluation, script generator, trace validator"},
              {"name": "Pipeline", "path": "spec/Pipeline.tla spec/PipelineTrace.tla spec/PipelineFaults.tla spec/PipelineBudget.tla spec/LogMutate.tla spec/ReplayVerdict.tla spec/ReplayItems.tla", "serves_properties": ["C10", "C11"], "kind_free_text": "abstract model of the optimizer's control flow (phases, faults, log, replay) checked by TLC, and its trace validator"},
